@@ -119,5 +119,5 @@ func vNetSet(k int, few bool) {
 func vh_C15_netset_single() { vNetSet(1, false) }
 
 // two networks (order matters for the set's buckets): nested, sibling and mixed-family pairs
-// verif: bv unwind=40 also=C19 paths=400000 steps=4000000
+// verif: bv unwind=40 also=C19,C01 paths=400000 steps=4000000
 func vh_C15_netset_pair() { vNetSet(2, true) }
